@@ -16,19 +16,22 @@ LEVEL_TEXT = ('static analysis: (D1) center_all interpreted on a symbolic table 
               ' a *_random and an unprefixed decoy contig, two null-coverage bins: depth 0, and a tiny depth with the placeholder log2) with an '
               'opaque estimator: every bin is shifted by one and the same term, minus the estimator applied -- per chromosome first, then across '
               'the per-chromosome values, or directly when by_chrom is off -- to exactly the autosomal bins (plus PAR-X iff a PAR genome is '
-              'given; minus null-coverage bins iff skip_low); (D2) the estimator names mean / median / mode / biweight are bound to the named '
-              'functions, equal the CLI choices, and any other string raises; (D3) shift_xx moves X by -1 iff (female sample, male reference), +1'
-              ' iff (male sample, female reference), nothing else, on a copy; the flat reference profile (C05-D2 rule: autosomes 0, Y -1 incl. '
-              "PAR-Y for a female reference, X -1 iff male reference); guess_xx returns the negation of compare_sex_chromosomes' maleness verdict"
-              ' (None passed on) -- of this call: asked twice on one array with another reference sex the second answer follows the second '
-              'verdict and the metadata is not extended; the `sex` report prints Male iff that verdict; and the decision skeleton of '
-              "compare_sex_chromosomes on noise-free levels (its median-difference path): X / Y at the levels expected for the sample's sex under"
-              ' either reference sex, with or without chrY, is classified as that sex; (D3c) verify_sample_sex returns the stated sex whenever '
-              'one is stated (x / y / f / m / female / male), else the inferred one; (D4) the sex / PAR flags reach same-role parameters. (CLI) '
-              'the `call --center / sex` command line(s), through a model of argparse built from the declarations in commands.py and the real '
-              '_cmd_ body interpreted with readers, library step and writers stubbed: the estimator (or `median` when --center has no value), '
-              '--drop-low-coverage and the PAR genome reach center_all, --center-at shifts instead; every file, -y and the PAR genome reach '
-              "do_sex. Does not decide the Mood's-median-test inference under noise (statistical).")
+              'given; minus null-coverage bins iff skip_low); tables without any autosome-like name are centred on all their bins, with or '
+              'without a PAR genome; the location estimators center_all binds return the value itself for constant data / a single bin (C19-D5 '
+              'rule); which bins are PAR-X / PAR-Y is decided on literal bins around every PAR boundary (C01-D2b rule); (D2) the estimator names '
+              'mean / median / mode / biweight are bound to the named functions, equal the CLI choices, and any other string raises; (D3) '
+              'shift_xx moves X by -1 iff (female sample, male reference), +1 iff (male sample, female reference), nothing else, on a copy; the '
+              'flat reference profile (C05-D2 rule: autosomes 0, Y -1 incl. PAR-Y for a female reference, X -1 iff male reference); guess_xx '
+              "returns the negation of compare_sex_chromosomes' maleness verdict (None passed on) -- of this call: asked twice on one array with "
+              'another reference sex the second answer follows the second verdict and the metadata is not extended; the `sex` report prints Male '
+              'iff that verdict; and the decision skeleton of compare_sex_chromosomes on noise-free levels (its median-difference path): X / Y at'
+              " the levels expected for the sample's sex under either reference sex, with or without chrY, is classified as that sex; (D3c) "
+              'verify_sample_sex returns the stated sex whenever one is stated (x / y / f / m / female / male), else the inferred one; (D4) the '
+              'sex / PAR flags reach same-role parameters. (CLI) the `call --center / sex` command line(s), through a model of argparse built '
+              'from the declarations in commands.py and the real _cmd_ body interpreted with readers, library step and writers stubbed: the '
+              'estimator (or `median` when --center has no value), --drop-low-coverage and the PAR genome reach center_all, --center-at shifts '
+              "instead; every file, -y and the PAR genome reach do_sex. Does not decide the Mood's-median-test inference under noise "
+              '(statistical).')
 TECHNIQUE = "abstract interpretation with an opaque estimator (uniform-shift identity, argument provenance); registry agreement; decision tables; role-flow"
 
 CNA = "cnvlib.cnary.CopyNumArray"
@@ -135,6 +138,27 @@ def d1(chk, prog):
         chk.violate("uniform-shift", f"{fi.qn}::empty", fi.loc(), f"center_all on an empty array raises {e}")
     except Undecided as e:
         raise AnalysisError(f"C15-D1 empty array: {e}")
+
+
+def sex_labels(chk, prog):
+    """the names under which a table's X and Y chromosomes are looked up: the table's own naming style (shared with C01 / C20, whose copy-number tables hang on them)"""
+    fi = prog.fn(f"{CNA}.chr_x_label")
+    tb = Table(chk, "uniform-shift", "chr_x_label / chr_y_label on literal tables: chr-named, bare, chr-named with an unprefixed decoy contig, without any X row, Y rows only", fi.loc(), f"{CNA}.chr_x_label / chr_y_label")
+    cases = {"chr-named": (["chr1", "chr2", "chrX", "chrY"], "chr"), "bare names": (["1", "2", "X", "Y", "MT"], ""), "chr-named with an unprefixed decoy": (["chr1", "chrX", "chrY", "HLA-A*01:01", "hs37d5"], "chr"),
+             "chr-named, no X row": (["chr1", "chr2", "chrY"], "chr"), "Y rows only": (["chrY", "chrY"], "chr"), "bare, no sex chromosome": (["1", "2"], ""), "chr-named after sorting decoys last": (["chr1", "chrX", "chrUn_gl000220", "GL000220.1"], "chr")}
+    for label, (names, pref) in cases.items():
+        W.reset()
+        rows = [dict(chromosome=c, start=10 * i, end=10 * i + 5, gene="g", log2=0) for i, c in enumerate(names)]
+        got = {}
+        for prop in ("chr_x_label", "chr_y_label"):
+            g = make_ga("CopyNumArray", rows, {"sample_id": "S"}, index="any", exact=True)
+            it = Interp(prog)
+            out = tb.guard(lambda: ("v", it.attribute(g, prop)), f"{label} {prop}")
+            got[prop] = out[1] if out is not None else "<undecided>"
+        if "<undecided>" in got.values():
+            continue
+        tb.cell(got == {"chr_x_label": pref + "X", "chr_y_label": pref + "Y"}, dict(table=label, chromosomes=names, got=got, want=(pref + "X", pref + "Y")))
+    tb.done("the sex chromosomes are looked up under a name the table does not use (its X / Y rows are then treated as autosomes)")
 
 
 def d2(chk, prog):
@@ -326,6 +350,7 @@ def run(chk):
     from . import C01
     C01.par_key_label(chk, prog)
     d1(chk, prog)
+    sex_labels(chk, prog)
     d2(chk, prog)
     from . import C19
     # the estimators center_all binds: a location estimate of constant data / of a single value is that value (a chromosome covered by one bin votes its own level), C19-D5 rule
